@@ -126,6 +126,15 @@ impl Translator {
     }
 
     pub fn tr_expr(&mut self, e: &Expr, expected: Option<&Ty>) -> R<Val> {
+        // an if/match whose VALUE is used must not assign variables of an enclosing scope: the
+        // assignment would be lost when the branch is closed (statement-level ifs and `let x = if ..`
+        // are handled by tr_assigning before they get here)
+        if !self.dry_run && matches!(e, Expr::If(_) | Expr::Match(_)) && expected != Some(&Ty::Unit) {
+            let outer: Vec<String> = crate::tr::stmt::assigned_vars(e).into_iter().filter(|n| self.lookup(n).is_some()).collect();
+            if !outer.is_empty() {
+                return self.err(e.span(), &format!("value-producing if/match assigns outer variable(s) {:?}", outer));
+            }
+        }
         match e {
             Expr::Lit(l) => match &l.lit {
                 syn::Lit::Int(i) => self.int_lit(i, expected),
